@@ -13,9 +13,21 @@ Hypotheses, both explicit:
 -/
 import Pithos.Model.LazyReader
 import Pithos.Lemmas.LazyReader
+import Pithos.Gen.PartIds
 
 namespace Pithos.C40
 open Pithos.LazyReader
+
+/-- The premises of the model and of `StoreOK`, read from the current sources (T1, regenerated on
+every run): every part the storage layer writes gets a fresh random id; the filesystem store
+publishes a part by renaming a temporary file and never truncates an existing one; a missing part
+file is an error (not an empty reader); the sequence reader hands that error to the caller of Read
+and has already advanced past the failed range. -/
+theorem store_invariant_premises :
+    Gen.PartIds.putPartCalls = Gen.PartIds.putPartCallsWithFreshId ∧ 0 < Gen.PartIds.putPartCalls ∧
+    Gen.PartIds.fsPublishesByRename = true ∧ Gen.PartIds.fsMissingPartIsError = true ∧
+    Gen.PartIds.lazyReaderPropagatesOpenError = true ∧ Gen.PartIds.lazyReaderAdvancesBeforeOpen = true := by
+  decide
 
 /-- **stream_prefix_or_error** (transaction-free part stores). For every interleaving of reads (any
 buffer sizes) and store changes that keep each part of the resolved version absent or unchanged:
